@@ -236,8 +236,14 @@ pub fn explore(fam: &Family) -> Acc {
         s.spawn(move || {
             // (case seen at the last look, processor time of the thread when it entered that case)
             let mut seen: Vec<(u64, f64)> = vec![(u64::MAX, 0.0); slots.len()];
-            while !done.load(Ordering::Relaxed) {
-                std::thread::sleep(std::time::Duration::from_millis(500));
+            'watch: loop {
+                // look at the workers twice a second, at the end-of-family flag every 5 ms
+                for _ in 0..100 {
+                    if done.load(Ordering::Relaxed) {
+                        break 'watch;
+                    }
+                    std::thread::sleep(std::time::Duration::from_millis(5));
+                }
                 for (w, (tid, idx)) in slots.iter().enumerate() {
                     let (tid, idx) = (tid.load(Ordering::Relaxed), idx.load(Ordering::Relaxed));
                     if tid == 0 || idx == u64::MAX {
